@@ -299,6 +299,12 @@ def run(ctx, ck) -> None:
     xy = ('call', ('attr', ('attr', ('var', 'jax'), 'tree'), 'map'), (('attr', ('var', 'jnp'), 'vdot'), x, y), ())
     ok = t is not None and t[0] == 'call' and t[1] == ('var', 'sum') and t[2] and t[2][0] == ('call', ('attr', ('attr', ('var', 'jax'), 'tree'), 'leaves'), (xy,), ())
     ck.expect('V6', ok, fn, 'dot = sum over leaves of vdot(x_leaf, y_leaf) (x conjugated: Hermitian product, operand order matters)', f'dot returns {show(t)}: not the sum of vdot over (x, y) in that order', instance='dot')
+    if ok:
+        start = dict(t[3]).get('start', t[2][1] if len(t[2]) > 1 else ('const', '0'))
+        weak_zero = start == ('const', '0') or (start[0] == 'call' and show(start[1]) in ('jnp.array', 'jnp.asarray') and start[2] == (('const', '0'),) and not start[3])
+        ck.expect('V6', weak_zero, fn, f'the sum starts from a weakly typed integer zero ({show(start)}): the result keeps the dtype of the products',
+                  f'the sum starts from {show(start)}, which is not a weakly typed integer zero: the accumulator promotes the products (integer leaves become floats and lose exactness above 2**24, '
+                  'half precision leaves become single precision)', instance='dot accumulator')
     fn = helper('as_promoted_dtype')
     x = ('var', fn.args.args[0].arg)
     promo = ('call', ('attr', ('var', 'jnp'), 'result_type'), (('star', ('call', ('attr', ('attr', ('var', 'jax'), 'tree'), 'leaves'), (x,), ())),), ())
